@@ -98,20 +98,51 @@ def _probe(job):
     return (name, pr, teal)
 
 
-PROBES = [
-    ("txna-index-300", "pt.Seq(pt.Pop(pt.Txn.application_args[300]), pt.Int(1))", 6, "Application"),
-    ("txna-index-255", "pt.Seq(pt.Pop(pt.Txn.application_args[255]), pt.Int(1))", 6, "Application"),
-    ("gtxn-index-16", "pt.Seq(pt.Pop(pt.Gtxn[16].sender()), pt.Int(1))", 6, "Application"),
-    ("arg-255", "pt.Seq(pt.Pop(pt.Arg(255)), pt.Int(1))", 6, "Signature"),
-    ("slot-255", "pt.Seq(pt.ScratchVar(pt.TealType.uint64, 255).store(pt.Int(1)), pt.Int(1))", 6, "Application"),
-    ("substring-300", "pt.Seq(pt.Pop(pt.Substring(pt.Bytes('abc'), pt.Int(0), pt.Int(300))), pt.Int(1))", 6, "Application"),
-    ("extract-300", "pt.Seq(pt.Pop(pt.Extract(pt.Bytes('abc'), pt.Int(300), pt.Int(1))), pt.Int(1))", 6, "Application"),
-    ("suffix-300", "pt.Seq(pt.Pop(pt.Suffix(pt.Bytes('abc'), pt.Int(300))), pt.Int(1))", 6, "Application"),
+
+
+IMM_VALUES = [-1, 0, 1, 15, 16, 255, 256, 257, 65536, 2 ** 64]
+E_ = "pt.Int(0)"   # a run-time (stack) operand where the construct accepts one
+# (name, source template over {a} {b}, lowest version, mode, domain of a, domain of b)   - every public construct whose Python-int
+# argument ends up as a numeric immediate of the emitted op
+IMM_TEMPLATES = [
+    ("scratchvar-slot", "pt.Seq(pt.ScratchVar(pt.TealType.uint64, {a}).store(pt.Int(1)), pt.Int(1))", 2, "Application", IMM_VALUES, [None]),
+    ("scratchslot-load", "pt.Seq(pt.ScratchSlot({a}).store(pt.Int(1)), pt.ScratchSlot({a}).load(pt.TealType.uint64))", 2, "Application", IMM_VALUES, [None]),
+    ("arg", "pt.Seq(pt.Pop(pt.Arg({a})), pt.Int(1))", 2, "Signature", IMM_VALUES + [E_], [None]),
+    ("gtxn", "pt.Seq(pt.Pop(pt.Gtxn[{a}].sender()), pt.Int(1))", 3, "Application", IMM_VALUES + [E_], [None]),
+    ("gtxn-expr", "pt.Seq(pt.Pop(pt.GtxnExpr({a}, pt.TxnField.fee)), pt.Int(1))", 3, "Application", IMM_VALUES + [E_], [None]),
+    ("txna", "pt.Seq(pt.Pop(pt.Txn.application_args[{a}]), pt.Int(1))", 2, "Application", IMM_VALUES + [E_], [None]),
+    ("txna-accounts", "pt.Seq(pt.Pop(pt.Txn.accounts[{a}]), pt.Int(1))", 2, "Application", IMM_VALUES + [E_], [None]),
+    ("txna-expr", "pt.Seq(pt.Pop(pt.TxnaExpr(pt.Op.txna, pt.Op.txnas, 'Txna', pt.TxnField.application_args, {a})), pt.Int(1))", 2, "Application", IMM_VALUES + [E_], [None]),
+    ("gtxna", "pt.Seq(pt.Pop(pt.Gtxn[{a}].application_args[{b}]), pt.Int(1))", 5, "Application", IMM_VALUES + [E_], IMM_VALUES + [E_]),
+    ("gtxna-expr", "pt.Seq(pt.Pop(pt.GtxnaExpr({a}, pt.TxnField.application_args, {b})), pt.Int(1))", 5, "Application", IMM_VALUES + [E_], IMM_VALUES + [E_]),
+    ("gitxn", "pt.Seq(pt.Pop(pt.Gitxn[{a}].sender()), pt.Int(1))", 6, "Application", IMM_VALUES, [None]),
+    ("gitxna", "pt.Seq(pt.Pop(pt.Gitxn[{a}].application_args[{b}]), pt.Int(1))", 6, "Application", IMM_VALUES, IMM_VALUES + [E_]),
+    ("itxna", "pt.Seq(pt.Pop(pt.InnerTxn.application_args[{a}]), pt.Int(1))", 5, "Application", IMM_VALUES + [E_], [None]),
+    ("itxn-logs", "pt.Seq(pt.Pop(pt.InnerTxn.logs[{a}]), pt.Int(1))", 6, "Application", IMM_VALUES + [E_], [None]),
+    ("import-scratch", "pt.Seq(pt.Pop(pt.ImportScratchValue({a}, {b})), pt.Int(1))", 6, "Application", IMM_VALUES + [E_], IMM_VALUES + [E_]),
+    ("generated-id", "pt.Seq(pt.Pop(pt.GeneratedID({a})), pt.Int(1))", 4, "Application", IMM_VALUES + [E_], [None]),
+    ("substring", "pt.Seq(pt.Pop(pt.Substring(pt.Bytes('abc'), pt.Int({a}), pt.Int({b}))), pt.Int(1))", 2, "Application", [0, 1, 255, 256], [0, 1, 255, 256, 300]),
+    ("extract", "pt.Seq(pt.Pop(pt.Extract(pt.Bytes('abc'), pt.Int({a}), pt.Int({b}))), pt.Int(1))", 5, "Application", [0, 1, 255, 256], [0, 1, 255, 256, 300]),
+    ("suffix", "pt.Seq(pt.Pop(pt.Suffix(pt.Bytes('abc'), pt.Int({a}))), pt.Int(1))", 2, "Application", [0, 1, 255, 256, 300], [None]),
+    ("replace", "pt.Seq(pt.Pop(pt.Replace(pt.Bytes('abcdef'), pt.Int({a}), pt.Bytes('x'))), pt.Int(1))", 7, "Application", [0, 1, 255, 256, 300], [None]),
+    ("dynamic-scratch", "pt.Seq(pt.Pop(pt.ScratchVar(pt.TealType.uint64, {a}).index()), pt.Int(1))", 5, "Application", IMM_VALUES, [None]),
+]
+VERSION_PROBES = [
     ("log-v4", "pt.Seq(pt.Log(pt.Bytes('x')), pt.Int(1))", 4, "Application"),
     ("log-signature", "pt.Seq(pt.Log(pt.Bytes('x')), pt.Int(1))", 6, "Signature"),
-    ("gtxna-index", "pt.Seq(pt.Pop(pt.Gtxn[1].application_args[300]), pt.Int(1))", 6, "Application"),
     ("global-caller-v5", "pt.Seq(pt.Pop(pt.Global.caller_app_id()), pt.Int(1))", 5, "Application"),
 ]
+
+
+def all_probes(tier):
+    out = list(VERSION_PROBES)
+    for name, tpl, v0, mode, da, db in IMM_TEMPLATES:
+        versions = sorted({v0, max(v0, 6), 10}) if tier == "quick" else list(range(v0, 11))
+        for a in da:
+            for b in db:
+                for v in versions:
+                    out.append((f"{name}[{a},{b}]@v{v}", tpl.format(a=a, b=b), v, mode))
+    return out
 
 
 def run(report: Report, tier, seed):
@@ -146,11 +177,13 @@ def run(report: Report, tier, seed):
     report.bounded.append(Bounded(function="pyteal.compileTeal output text", contract="#pragma first; ops/immediates legal at version+mode; labels unique and defined; no placeholder; every path ends in return/retsub/err; no fall-through into a routine",
                                   bound=f"{len(specs)} generated programs (seed {seed}), incl. programs compiled below the version they were generated for, with/without assembleConstants",
                                   cases=sum(r["n"] for r in res), distinct_nontrivial=len(specs), failures=len(bad)))
-    with ProcessPoolExecutor(max_workers=8) as ex:
-        pr = list(ex.map(_probe, PROBES))
+    PROBES = all_probes(tier)
+    with ProcessPoolExecutor(max_workers=16) as ex:
+        pr = list(ex.map(_probe, PROBES, chunksize=16))
     pbad = [(name, p, t) for name, p, t in pr if p not in ("rejected",) and p]
     report.bounded.append(Bounded(function="immediate-range / version probes", contract="rejected with a PyTeal error or emitted legally",
-                                  bound=f"{len(PROBES)} hand-written probes", cases=len(PROBES), distinct_nontrivial=len(PROBES), failures=len(pbad)))
+                                  bound=f"{len(IMM_TEMPLATES)} constructs with numeric immediates x boundary values {IMM_VALUES} (and a run-time operand where accepted) x versions; {len(VERSION_PROBES)} version probes",
+                                  cases=len(PROBES), distinct_nontrivial=sum(1 for _, p, _t in pr if p != "rejected"), failures=len(pbad)))
     report.extra["explanation"] = "E: Op/TxnField/GlobalField tables vs langspec; P: verifyOpsForVersion/Mode/ProgramVersion (pyvc); B: structural validation of generated programs and probes"
     def search(fn, obs):
         if "substring" in fn:
@@ -167,7 +200,7 @@ def run(report: Report, tier, seed):
     for s, r in bad[:2]:
         report.violation(Violation(key=f"tealcheck:{s['seed']}:{s['version']}", what=f"illegal TEAL emitted: {r['problems'][0]['problems'][:2]}",
                                    replay={"kind": "generated", "spec": s, "problems": r["problems"][:1]}, confirmed_native=True))
-    for name, p, t in pbad:
+    for name, p, t in pbad[:3]:
         report.violation(Violation(key=f"probe:{name}", what=f"probe {name}: {p if isinstance(p, str) else p[:2]}",
                                    replay={"kind": "probe", "name": name, "teal": t}, confirmed_native=True))
 
@@ -175,7 +208,7 @@ def run(report: Report, tier, seed):
 def replay(data):
     r = data["replay"]
     if r.get("kind") == "probe":
-        job = [p for p in PROBES if p[0] == r["name"]][0]
+        job = [p for p in all_probes("thorough") if p[0] == r["name"]][0]
         out = _probe(job)
         print(out[:2])
         return 1 if (out[1] not in ("rejected",) and out[1]) else 0
